@@ -233,9 +233,10 @@ LEVEL_TEXT = (
     "run that check() performs). The model is tied to forest.py by comparing needed_rules as a list."
 )
 LEVEL_NOTE = (
-    "C11_one_rule_per_class, C11_minimal_one_rule_per_class and C11_positional use the standard-library axiom "
-    "Classical_Prop.classic, only to compare the (possibly infinite) number of terms of one class in two key lists; "
-    "the core (Positional.split_derivable) is axiom free, and so are C11_minimal_one_rule_per_class_valued and "
+    "C11_one_rule_per_class, C11_minimal_one_rule_per_class and C11_positional are closed under the global context "
+    "(they are proved through the total variants: C03 termination decides how many terms a class has in a key "
+    "list, which is what the earlier classical proof used excluded middle for); the core "
+    "(Positional.split_derivable) is axiom free, and so are C11_minimal_one_rule_per_class_valued and "
     "C11_one_rule_per_class_runs, which take that comparison as a hypothesis, and - using C03 termination - the _total "
     "versions of the same statements. C11_closed takes the table-method run of check() as a hypothesis; C11_closed_total "
     "does not. C11_one_rule_per_class_partial (soundness of the code's own "
